@@ -360,6 +360,8 @@ pub fn enumerate(specs: &[Specimen], seed: u64, tier: Tier, only_covered: bool) 
                 let mut named: Vec<&indep::Span> = view.spans.iter().filter(|sp| sp.name != "pack body (covered)" && sp.end > sp.start).collect();
                 named.sort_by_key(|sp| (sp.start, sp.end));
                 for sp in named {
+                    // structures of 4 KiB and more are read through the memory-mapped path: more positions there
+                    let per = if sp.end - sp.start >= 4096 { per * 8 } else { per };
                     for _ in 0..per {
                         let pos = sp.start + rng.below(sp.end - sp.start);
                         if is_target(pos) {
